@@ -47,6 +47,11 @@ def _queue_append(it, args, kwargs, fr, node):
     ctx.oblige('line:ends-at-newline', 'post', z3.Select(S, to_z3(start) + to_z3(ln)) == NL, 'the command is followed by a newline')
     k = z3.Int('k!ln')
     ctx.oblige('line:no-newline-inside', 'post', z3.ForAll([k], z3.Implies(z3.And(k >= to_z3(start), k < to_z3(start) + to_z3(ln)), z3.Select(S, k) != NL)), 'the command holds no newline: it is exactly one line')
+    # ... and is no longer than the cap, in whichever read its newline came (the guard on the partial line refuses it when the
+    # newline comes later: accepting it here would make the commands executed depend on the chunking)
+    from exabgp.reactor.api.processes import Processes
+
+    ctx.oblige('line:within-cap', 'post', to_z3(ln) <= Processes.MAX_COMMAND_SIZE, 'a queued command is at most MAX_COMMAND_SIZE long')
     # the text handed to formated() is a window of that line (rstrip only removes from its right end)
     cmd = args[0].items[1] if isinstance(args[0], VTuple) else None
     _gset(fr, 'queued', simp(fr.lookup('queued') + 1))
@@ -78,7 +83,7 @@ contract(
     PR,
     'Processes._async_reader_callback',
     props=('C14',),
-    segment={'from': "raw = self._buffer.get(process_name, '') + buf", 'to': 'if poll is not None:'},
+    segment={'from': "raw = self._buffer.get(process_name, '') + buf", 'to': 'if undecodable is not None:'},
     params={
         'self': obj('exabgp.reactor.api.processes:Processes', _buffer=custom(lambda it, n: VObj(None, {'setitem!': _set_buffer, 'stored': None}, '_buffer')), _command_queue=obj(None)),
         'process_name': str_(),
@@ -126,7 +131,8 @@ contract(
     notes=[
         'segment contract: the line reassembly of _async_reader_callback (from the concatenation with the kept buffer to the store of the new buffer); process polling, EOF and error handling around it are not under contract',
         'text is a view of code points into one array S = old buffer ++ chunk; rstrip() keeps a sub-window of the line (which characters it removes is not modelled); formated() is opaque',
-        'the memory guard (no newline and more than MAX_COMMAND_SIZE buffered) is chunking-dependent by construction and is excluded: clauses hold when it does not fire',
+        'the memory guard: a line over MAX_COMMAND_SIZE is refused whether its newline has come or not (obligation line:within-cap on every queued command); the clauses on the kept buffer hold when the guard does not fire; WHEN the helper is refused for a partial line (this read or the next) is not under contract',
+        'the decoding of the bytes read (the valid prefix is kept when a byte is not ASCII, the helper refused after its lines are queued) precedes the segment: bounded check streams-the-reader-refuses',
     ],
     canaries=[
         ("line, raw = raw.split('\\n', 1)", "line, raw = raw.split('\\n', 1)\n                raw = raw[1:]"),
